@@ -17,5 +17,5 @@ HARNESSES = [
     H("c07_memory_list::c07_app_len7_len9", loops={"extend_with": 40, "alloc_from_array": 8}, desc="memory list layout: count + 16-byte records, rvas of region bytes"),
     H("c08_modules::c08_write_list", loops={"extend_with": 60}, timeout=3000, est_gb=16, mem_gb=34, tier="thorough", desc="module list layout: count + 108-byte records in call order"),
     H("c20_skip_stacks::c20_incl_serve16_off0", loops={"extend_with": 40}, desc="a skipped stack has size 0 and no memory-list entry (no dangling stack descriptor)"),
-    H("c02_dso_debug::c18_dso_two_objects", timeout=1800, est_gb=8, loops={"extend_with": 60}, desc="linker debug stream layout: link_map array, names, debug record + dynamic section", tier="thorough"),
+    H("c02_dso_debug::c18_dso_two_objects", timeout=3400, est_gb=12, mem_gb=30, fs_array=4096, loops={"extend_with": 60, "position": 260}, desc="linker debug stream layout: link_map array, names, debug record + dynamic section", tier="thorough"),
 ]
